@@ -453,7 +453,14 @@ impl Crate {
                     // an impl of PartialEq / Ord / Display / Hash / From that overrides a provided method (`ne`, `max`,
                     // `lt`, …) changes the meaning of operators and std functions the translation takes as given
                     let defined = self.impl_fns.get(&(ty.to_string(), tr.to_string())).cloned().unwrap_or_default();
-                    let extra: Vec<String> = defined.into_iter().filter(|n| n != name).collect();
+                    let configured: Vec<&str> = config::ITEMS
+                        .iter()
+                        .filter_map(|i| match i {
+                            CItem::Method { ty: t2, tr: r2, name: n2 } if t2 == ty && r2 == tr => Some(*n2),
+                            _ => None,
+                        })
+                        .collect();
+                    let extra: Vec<String> = defined.into_iter().filter(|n| !configured.contains(&n.as_str())).collect();
                     if !extra.is_empty() {
                         return Err(format!("impl {} for {} also defines {}", tr, ty, extra.join(", ")));
                     }
@@ -681,6 +688,9 @@ pub fn variant_ctor(ty: Option<&str>, variant: &str) -> Option<String> {
 
 pub fn lean_type(t: &Type, self_ty: Option<&str>) -> R<String> {
     match t {
+        Type::Reference(r) if r.lifetime.as_ref().map_or(false, |l| l.ident == "static") && r.elem.to_token_stream().to_string() == "str" => {
+            Ok("String".into())
+        }
         Type::Reference(r) => lean_type(&r.elem, self_ty),
         Type::Paren(p) => lean_type(&p.elem, self_ty),
         Type::Slice(s) => Ok(format!("(List {})", lean_type(&s.elem, self_ty)?)),
